@@ -250,6 +250,14 @@ def d31():
   return None if np.array(h).shape == (3, 3) and close(h, h2) else 'MFDeviceSet.hess(flat) %s != hess(shaped) %s' % (np.diag(h), np.diag(h2))
 
 
+def d33():
+  ds = SubBalancedDeviceSet('root', [Device('a1', 2, (-5, 5)), Device('b1', 2, (-5, 5)), Device('a2', 2, (-5, 5)), Device('b2', 2, (-5, 5))],
+                            None, labels=['a1', 'b1'])
+  S = np.array([[1., 1.], [0., 0.], [3., 3.], [0., 0.]])   # rows labelled a1 sum to 1 (not balanced); rows labelled b1 sum to 0
+  vals = [c['fun'](S.flatten()) for c in ds.constraints]
+  return None if any(abs(v) > 1e-12 for v in vals) else 'SubBalancedDeviceSet: unbalanced label a1 accepted, all constraint values %s' % vals
+
+
 if __name__ == '__main__':
   names = [a for a in sys.argv[2:]] or sorted(k for k in globals() if k[0] == 'd' and k[1:3].isdigit())
   bad = 0
